@@ -4,7 +4,8 @@ CONSTANTS
   Times <- TimesT
   Curves <- CurvesT
   MaxSeg = 2
-  QTicks = {0, 8, 24, 64, 65, 200}
+  MaxPts = 1
+  QTicks = {0, 8, 24, 65, 200}
 INVARIANT FormatWellFormed
 INVARIANT NodesEncoded
 INVARIANT WrapLaw
